@@ -242,3 +242,99 @@ def clause(ctx, prog, clause_id, families=('partitioned', 'template')):
             ctx.undecided(clause_id, f'{ci.key}::kernels', f'{len(ks)} accumulation kernels found (the dispatch selects between two)', ci.mod.relpath)
         n += emit(ctx, clause_id, check_template(prog, ks, ctx.tier), 'exi, exxi and counters grow by the per-class sums / sums of outer products / counts of the batch')
     return n
+
+
+def check_mia(prog, f, tier='quick'):
+    """the MIA histogram kernel on concrete samples placed relative to the bin edges (below, on, between, on the last edge, above;
+    NaN) and concrete class indices: accumulators[s, b, p, w] grows by the number of traces whose sample s lies in bin b
+    (edges[b] <= x < edges[b+1], the last edge belonging to the last bin), class position p of word w; nothing for samples outside
+    the window, for NaN, or for index -1.  The kernel touches the samples only through comparisons and one affine map to the bin
+    index, so the positions relative to the edges (all exactly representable here) are the whole domain."""
+    roles = {}
+    for p in f.params:
+        if p == 'traces':
+            roles[p] = 'traces'
+        elif p == 'data':
+            roles[p] = 'data'
+        elif 'edges' in p:
+            roles[p] = 'edges'
+        elif 'accumul' in p:
+            roles[p] = 'acc'
+        else:
+            return ('undecided', f'parameter `{p}` of the MIA kernel not recognised'), 0
+    if set(roles.values()) != {'traces', 'data', 'edges', 'acc'}:
+        return ('undecided', 'parameter roles (traces, data, bin edges, accumulators) not recognised'), 0
+    inv = {v: k for k, v in roles.items()}
+    n = 0
+    msg = None
+    try:
+        for edges in (np.array([0.0, 1.0, 2.0, 3.0]), np.array([-1.5, 0.0, 1.5]), np.array([2.0, 2.5]), np.array([-4.0, -2.0, 0.0, 2.0, 4.0])):
+            B = len(edges) - 1
+            w_ = edges[1] - edges[0]
+            pts0 = [edges[0] - 10 * w_, edges[0] - w_, edges[0] - w_ / 2, edges[-1] + w_ / 4, edges[-1] + w_, edges[-1] + 10 * w_]
+            for b in range(B):
+                pts0 += [edges[b], edges[b] + w_ / 4, edges[b] + w_ / 2, edges[b] + 3 * w_ / 4]
+            pts0.append(edges[-1])
+            for data_col, with_nan in (([0, 1], False), ([1, -1], False), ([-1, -1], False), ([1, 0], False), ([0, 1], True)):
+                pts = np.array(pts0 + ([float('nan')] if with_nan else []))
+                W, P = 2, 2
+                T = len(pts)
+                # every point appears once per class assignment; two sample columns: the points in order and reversed
+                traces = np.stack([pts, pts[::-1]], axis=1)
+                data = np.tile(np.array(data_col, dtype=np.int64), (T, 1))
+                data[::2] = data[::2][:, ::-1]          # alternate the assignment between the words
+                acc = np.zeros((2, B, P, W), dtype=np.int64)
+                te = symtensor.TensorEval(prog, f.cls, {})
+                te.numeric = True
+                te.strict_if = True
+
+                def hook(e, fn_, env, ev):
+                    fn = e.func
+                    if isinstance(fn, ast.Attribute) and fn.attr == 'prange' and norm(fn.value) in ('_nb', 'nb', 'numba'):
+                        return range(*[int(ev.ev(fn_, a, env)) for a in e.args])
+                    return NotImplemented
+                te.call_hook = hook
+                te.run(f, {inv['traces']: traces.copy(), inv['data']: data.copy(), inv['edges']: edges.copy(), inv['acc']: acc})
+                n += 1
+                want = np.zeros_like(acc)
+                for t in range(T):
+                    for s in range(2):
+                        x = traces[t, s]
+                        b = None
+                        for k in range(B):
+                            if edges[k] <= x < edges[k + 1]:
+                                b = k
+                        if x == edges[-1]:
+                            b = B - 1
+                        if b is None:
+                            continue
+                        for w in range(W):
+                            if data[t, w] != -1:
+                                want[s, b, data[t, w], w] += 1
+                if not np.array_equal(acc, want) and msg is None:
+                    d = np.argwhere(acc != want)[0]
+                    msg = (f'edges {edges.tolist()}, samples {sorted(set(x for x in pts.tolist() if x == x))} (+NaN), class indices {data_col}: accumulators[sample {d[0]}, bin {d[1]}, class {d[2]}, word {d[3]}] '
+                           f'receives {int(acc[tuple(d)])} traces, the histogram definition gives {int(want[tuple(d)])}')
+    except (ratfun.Unknown, symtensor.Raised) as e:
+        return ('undecided', f'kernel not evaluable: {e}'), n
+    except (IndexError, ValueError, TypeError, OverflowError) as e:
+        msg = msg or f'the kernel fails on a small batch ({type(e).__name__}: {e})'
+    return (('violated', msg) if msg else None), n
+
+
+def mia_clause(ctx, prog, clause_id):
+    ctx.rule(clause_id, 'MIA histogram kernel by evaluation over the positions of a sample relative to the bin edges: a sample is counted in the bin [edge_b, edge_b+1) that contains it (the last edge in the last bin), '
+                        'for the class position of each word, and nowhere when it is outside the window, NaN, or of an undeclared class')
+    if np is None:
+        ctx.undecided(clause_id, 'kernels::values', 'numpy is not available to the analysis interpreter')
+        return 0
+    ci = prog.need_class('scared.distinguishers.mia', 'MIADistinguisherMixin')
+    f = ci.methods.get('_accumulate_core')
+    if f is None:
+        ks = [g for name, g in sorted(ci.methods.items()) if prog.numba_kind(g)[0] is not None]
+        f = ks[0] if len(ks) == 1 else None
+    if f is None:
+        ctx.undecided(clause_id, f'{ci.key}::kernel', 'MIA accumulation kernel not identified', ci.mod.relpath)
+        return 0
+    verdict, n = check_mia(prog, f, ctx.tier)
+    return emit(ctx, clause_id, [(f, verdict, n)], 'every sample is counted in the bin that contains it, last edge included, out-of-window / NaN / undeclared ignored')
